@@ -63,9 +63,22 @@ CLAIMED = {
     note="Quick tier decides histories of one committed entry (CBMC runs out of memory on the Vec growth paths for empty and two-entry histories; those variants are thorough-tier and may end undecided). Real-thread schedules, the async write mutex, publication of the new version on commit, walk() and the zone tree itself (hashbrown + Arc + locks) are outside the claim: Kani does not model concurrency.",
     technique=KANI + "; differential against a version->value reference model, hook re-exports the private Versioned type",
     ref="DESIGN.md §4 C09"),
+ "C15": dict(
+    text="The demultiplexing kernel of the stream transports, the outstanding-query table: by one-step induction from every table state satisfying its representation invariant, insert never hands out an ID whose slot is occupied and stores exactly the request, try_remove returns exactly what was stored under that ID (nothing for free or out-of-range IDs) and does so once, insert_at fills a free slot, and count/curr stay consistent - so two live requests never share an ID and a reply looked up by ID reaches its own request.",
+    note="Tables of 4 slots (the operations are index arithmetic over the slot vector); state constructed through a cfg-guarded hook. Everything asynchronous - timeouts, retries, TC fallback, connection state machine, redundant/load-balancing transports - and Message::is_answer (goes through ParsedName::parse_ref) are outside the claim: Kani does not model concurrency.",
+    technique=KANI + "; inductive step from an arbitrary symbolic pre-state satisfying the representation invariant",
+    ref="DESIGN.md §4 C15"),
 }
 
 NA = {
+ "C06": "record-level write->read needs zonefile::inplace::Zonefile, whose record dispatch (ZoneRecordData::scan, SVCB arm) makes kani-compiler 0.68 abort; the token-level kernels planned in DESIGN were not reached in this session (label Display->parse round trip is checked under C03, Base16/32/64 text under C18)",
+ "C07": "the subject (zonefile::inplace::Zonefile::next_entry) cannot be compiled by kani-compiler 0.68 (ICE through ZoneRecordData::scan's SVCB arm, which cannot be stubbed); mir2smt does not apply (loops, heap)",
+ "C08": "the answer algorithm lives in HashMap<OwnedLabel, Arc<ZoneNode>> behind parking_lot locks and async update paths; hashbrown with a random hasher does not finish even two concrete inserts under CBMC; no pure kernel carries the RFC 1034 4.3.2 semantics",
+ "C10": "the interpreter consumes Message/ParsedRecord values, i.e. every input goes through ParsedName::parse_ref, which CBMC cannot execute even on concrete input (DESIGN section 2); the updater side is the zone tree (C08)",
+ "C14": "chain-of-trust validation is async + moka + ring signatures; the pure denial-range helpers were tried: nsec3_in_range is decided, but nsec_in_range (Name<Bytes>) and nsec3_label_to_hash (Vec growth + from_utf8) run out of memory, which leaves a single harness - too little to claim the property; the hostile-label panic found while trying (D10) was repaired and is demonstrated natively",
+ "C16": "every clause is about async tokio tasks, sockets, pipelining and three middleware layers; the only integer kernel (EDNS size clamp) is inline in an async fn; Kani does not model concurrency",
+ "C19": "differential claim between the new codec and the established one: the established parser is ParsedName::parse_ref (out of reach, DESIGN section 2); the new-API side alone was not reached in this session",
+ "C20": "every cache kernel (validity, decrement_ttl, remove_dnssec, classify_no_error) takes a Message and walks its records, i.e. goes through ParsedName::parse_ref; storage is moka and time is tokio's clock",
 }
 PENDING = "check not built yet (work in progress in this session; see DESIGN.md §4 for the planned harnesses)"
 
